@@ -135,7 +135,65 @@ typedef struct span_cls {
 static span_cls *spans;
 static size_t nspans;
 
+/* "all arrays": one array long enough that the packed mantissa block of a
+ * single call exceeds 2^32 bits (FULL precision: 52 bits x 82.6 million
+ * values).  About 4 GB of memory and 20 s; thorough tier only.  Values are
+ * normal doubles with distinct mantissas; only a verdict is logged. */
+static void giant(int mode) {
+    size_t n = 82595525 + 4096;
+    double *v = malloc(n * 8), *back = malloc(n * 8);
+    size_t bound = varintFloatMaxEncodedSize(n, VARINT_FLOAT_PRECISION_FULL);
+    gbuf dst = gb_alloc(bound);
+    if (!v || !back) {
+        fprintf(stderr, "giant: out of memory\n");
+        exit(2);
+    }
+    for (size_t i = 0; i < n; i++) {
+        uint64_t b = ((uint64_t)(i & 1) << 63) | ((uint64_t)(1000 + i % 50) << 52) |
+                     ((i * 0x9E3779B97F4A7C15ULL) & ((1ULL << 52) - 1));
+        memcpy(&v[i], &b, 8);
+    }
+    memset(back, 0, n * 8);
+    size_t w = 0, consumed = 0;
+    g_guard_secs = 600;
+    int f = GUARDED(w = varintFloatEncode(dst.p, v, n, VARINT_FLOAT_PRECISION_FULL, (varintFloatEncodingMode)mode));
+    int df = 0;
+    if (!f && w > 0 && w <= bound) {
+        gbuf src = gb_alloc(w);
+        memcpy(src.p, dst.p, w);
+        df = GUARDED(consumed = varintFloatDecode(src.p, n, back));
+        gb_free(&src);
+    }
+    long long mismatch = -1;
+    for (size_t i = 0; !f && !df && i < n; i++) {
+        if (memcmp(&v[i], &back[i], 8)) {
+            mismatch = (long long)i;
+            break;
+        }
+    }
+    ev_begin("FGiant");
+    ev_int("n", (long long)n);
+    ev_int("mode", mode);
+    ev_int("fault", f);
+    ev_int("dfault", df);
+    ev_int("bound", (long long)bound);
+    ev_int("written", f ? -1 : (long long)w);
+    ev_int("consumed", (long long)consumed);
+    ev_int("mismatch", mismatch);
+    ev_end();
+    free(v);
+    free(back);
+    gb_free(&dst);
+}
+
 int main(int argc, char **argv) {
+    if (argc == 4 && !strcmp(argv[1], "giant")) {
+        tr_open(argv[3]);
+        guard_install();
+        giant(atoi(argv[2]));
+        tr_close();
+        return 0;
+    }
     if (argc < 6) {
         fprintf(stderr, "usage: %s classes shard nshards nrandom out\n", argv[0]);
         return 2;
